@@ -225,6 +225,13 @@ pub fn helper_usage(lang: Lang, text: &str, extra_vocab: &[&str]) -> Result<(BTr
                 used.insert("ReviverFunc".to_string());
                 used.insert("ReplacerFunc".to_string());
             }
+            // Uint8Array (the mapped byte vector) anywhere in the declarations needs both helpers: JSON carries it as a
+            // number array and the helpers are value-based. (Date is revived by field key, so typeshare emits its helper
+            // only for direct fields by design; nothing is demanded for Date beyond the pair rule.)
+            if code.iter().any(|t| t.k == K::Ident && t.text == "Uint8Array") {
+                used.insert("ReviverFunc".to_string());
+                used.insert("ReplacerFunc".to_string());
+            }
         }
         Lang::Python => {
             let vocab: Vec<&str> = [
